@@ -688,7 +688,8 @@ void parseFrame(void *frame, void *iface_ctx) {
         return;
     }
 
-    if (header->opcode == opcode_discover) {
+    if (header->opcode == opcode_discover &&
+        (header->tos == tos_discovery || header->tos == tos_quick_discovery)) {
         lltd_discover_upper_header_t *disc_header =
             (lltd_discover_upper_header_t *)((uint8_t *)frame + sizeof(*header));
         uint16_t generation_host = lltd_ntohs(disc_header->generation);
